@@ -12,7 +12,7 @@
    checked on every implementation output by the harness family `extend`. *)
 From Coq Require Import List ZArith Bool Permutation.
 From TskVerif Require Import Base.Common Gen.Generated C11.Model C11.Current C11.Spec C11.IntervalProofs C11.SitesProofs
-     C11.KeepProofs C11.TrimProofs C11.TrimMutProofs C11.TimeProofs C11.TotalProofs C11.ExtendSpec C11.ExtendCheck C11.Collection C11.AncestryProofs C11.Main.
+     C11.KeepProofs C11.TrimProofs C11.TrimMutProofs C11.TimeProofs C11.TotalProofs C11.ExtendSpec C11.ExtendCheck C11.Collection C11.AncestryProofs C11.DelSitesOrder C11.DelSitesEmpty C11.Main.
 Import ListNotations.
 Open Scope Z_scope.
 
@@ -427,3 +427,14 @@ Theorem keep_intervals_simplify_partial :
        (share_ancestor (t_edges t2) x (nodemap s1) (nodemap s2) <-> share_ancestor (t_edges t) x s1 s2)) /\
     (forall x, ~ inside ivs x -> share_ancestor (t_edges t2) x (nodemap s1) (nodemap s2) -> s1 = s2).
 Proof. exact keep_intervals_simplify_partial_lemma. Qed.
+
+(* delete_sites depends on the id list only through its set of elements: repeats and order are
+   irrelevant ("the site IDs do not need to be in any particular order, and specifying the same ID
+   multiple times does not have any effect"), for results and for refusals alike *)
+Theorem delete_sites_same_elements : forall ids ids' t,
+  (forall a, In a ids <-> In a ids') -> delete_sites ids t = delete_sites ids' t.
+Proof. exact delete_sites_same_elements_lemma. Qed.
+
+(* deleting no site is the identity on every table collection whose references are in range *)
+Theorem delete_sites_nil_is_identity : forall t, refs_ok t -> delete_sites [] t = Ok t.
+Proof. exact delete_sites_nil_lemma. Qed.
